@@ -383,9 +383,12 @@ class t2grid(object):
 
     def add_underground_blocks(self, geo, blockmap = {}):
         """Add underground blocks from geometry"""
+        # (layer and column are looked up rather than parsed from the block name,
+        # which fix_blockname() may have altered, e.g. 'ab1 1' -> 'ab101')
+        cell = dict([(geo.block_name(lay.name, col.name), (lay, col))
+                     for lay in geo.layerlist[1:] for col in geo.columnlist])
         for blkname in geo.block_name_list[geo.num_atmosphere_blocks:]:
-            lay = geo.layer[geo.layer_name(blkname)]
-            col = geo.column[geo.column_name(blkname)]
+            lay, col = cell[blkname]
             centre = geo.block_centre(lay, col)
             vol = geo.block_volume(lay, col)
             name = blockmap[blkname] if blkname in blockmap else blkname
